@@ -17,9 +17,11 @@ from . import common as cm
 REQ = ["Interactive.Enable", "Interactive.SafeCall", "Interactive.Wire"]
 
 OPS = ["Enable", "EnableAgain", "Disable", "LoadExt", "UnloadExt", "ReloadExt", "LoadFn", "UnloadFn"]
+PRE_OPS = ["Enable", "EnableAgain", "Disable"]      # what can be called before the shell exists
 JPS = ["JSplitterReset", "JOfind", "JRunAstNodes", "JCompile", "JTime", "JTimeit", "JProfiler", "JPrun",
-       "JMatchersProp", "JGlobalMatches", "JAttrMatches", "JExecfile", "JDebugger", "JRunWithDebugger"]
-NAME_ID = {"b64decode": 1, "zzmod_ok": 2, "badname": 3, "zz_unknown": 4}
+       "JMatchersProp", "JGlobalMatches", "JAttrMatches", "JExecfile", "JDebugger", "JRunWithDebugger",
+       "JInitShell", "JInitSubcommand"]
+NAME_ID = {"b64decode": 1, "zzmod_ok": 2, "badname": 3, "zz_unknown": 4, "zzmod_bad": 5, "zz_reg": 6}
 EXC_ID = {"AttributeError": 1, "AssertionError": 2, "ValueError": 10, "OSError": 11, "KeyError": 12, "ImportError": 13,
           "RuntimeError": 14, "TypeError": 15, "ZeroDivisionError": 16, "CustomError": 17, "MemoryError": 18,
           "RecursionError": 19, "NameError": 20, "StrRaises": 21, "ReprRaises": 22, "UnprintableArgs": 23,
@@ -38,7 +40,9 @@ CELL_IMPORT = {"op": "cell", "act": "run", "text": "zz_v = b64decode('aGk=')\nde
                "del": True}
 CELL_PLAIN = {"op": "cell", "act": "run", "text": "zz_w = 41 + 1", "names": [], "del": False}
 CELL_COMPLETE = {"op": "cell", "act": "cglobal", "text": "b64d", "names": [], "del": False}
-CELLS = [CELL_IMPORT, CELL_PLAIN, CELL_COMPLETE]
+# a name known only through pyflyby.add_import() (the session-local database)
+CELL_REG = {"op": "cell", "act": "run", "text": "zz_q = zz_reg + 1\ndel zz_reg", "names": [["reg", "zz_reg"]], "del": True}
+CELLS = [CELL_IMPORT, CELL_PLAIN, CELL_COMPLETE, CELL_REG]
 
 
 # ---------------------------------------------------------------------------------------------
@@ -46,18 +50,42 @@ CELLS = [CELL_IMPORT, CELL_PLAIN, CELL_COMPLETE]
 
 def gen_cases(ctx, n):
     cases = []
-    alphabet = [{"op": o} for o in OPS] + [CELL_IMPORT, CELL_COMPLETE]
+    alphabet = [{"op": o} for o in OPS] + [CELL_IMPORT, CELL_COMPLETE, {"op": "AddImport"}, CELL_REG]
     for i in range(n):
         r = cm.rng(ctx.seed, "c14", i)
         k = r.choice([1, 2, 3, 4, 5, 6, 6, 6])
+        pre = []
         if i % 7 == 3:          # cycles: the F6 shape
             ops = [{"op": r.choice(["LoadExt", "Enable", "LoadFn"])}, {"op": r.choice(["UnloadExt", "Disable", "UnloadFn"])}] * 3
             ops = ops[:6]
+        elif i % 7 == 5:        # registered names across off/on cycles
+            cyc = r.choice([[{"op": "Disable"}, {"op": "Enable"}], [{"op": "UnloadExt"}, {"op": "LoadExt"}], [{"op": "ReloadExt"}],
+                            [{"op": "UnloadFn"}, {"op": "LoadFn"}]])
+            ops = [{"op": r.choice(["LoadExt", "LoadFn"])}, {"op": "AddImport"}] + cyc + [CELL_REG] + \
+                  ([r.choice(alphabet)] if r.random() < .5 else []) + [CELL_REG]
         else:
             ops = [r.choice(alphabet + ([CELL_PLAIN] if r.random() < .2 else [])) for _ in range(k)]
+        if i % 4 == 1:          # start-up order of ipython_config.py / `py`: enable before the shell exists
+            pre = [{"op": r.choice(PRE_OPS)} for _ in range(r.choice([0, 1, 1, 2, 2, 3]))] + [{"op": "Initialize"}]
+            if r.random() < .6:
+                ops = [r.choice([{"op": "Enable"}, CELL_IMPORT, CELL_IMPORT, {"op": "Disable"}])] + ops[:5]
         jedi = (i % 10 == 9)    # the environment of F14
         level = "DEBUG" if (i % 25 == 24) else "ERROR"
-        cases.append({"kind": "seq", "i": i, "ops": ops + [{"op": "Disable"}], "jedi": jedi, "level": level})
+        cases.append({"kind": "seq", "i": i, "ops": pre + ops + [{"op": "Disable"}], "jedi": jedi, "level": level,
+                      "preshell": bool(pre)})
+    return cases
+
+
+def gen_preshell_exhaustive(maxlen):
+    """every sequence of enable / disable calls before app.initialize(), then the shell, an optional enable, a
+    cell reading a known name, a final disable"""
+    cases = []
+    for k in range(0, maxlen + 1):
+        for tup in itertools.product(["Enable", "Disable", "EnableAgain"], repeat=k):
+            for after in ([], ["Enable"], ["Disable", "Enable"]):
+                cases.append({"kind": "preshell", "i": len(cases), "preshell": True, "jedi": False, "level": "ERROR",
+                              "ops": [{"op": o} for o in tup] + [{"op": "Initialize"}] + [{"op": o} for o in after]
+                                     + [CELL_IMPORT, {"op": "Disable"}]})
     return cases
 
 
@@ -125,14 +153,18 @@ def c_nm(kind, name, bad_exc):
         return "(NKnownOk %s)" % i
     if kind == "bad":
         return "(NKnownRaises %s %s)" % (i, c_exc(bad_exc))
+    if kind == "reg":
+        return "(NRegistered %s)" % i
     return "(NUnknown %s)" % i
 
 
 def c_sop(o, bad_exc="ValueError"):
+    if o["op"] == "AddImport":
+        return "(SOp (AddImport %s))" % cm.cN(NAME_ID["zz_reg"])
     if o["op"] != "cell":
         return "(SOp %s)" % o["op"]
     names = cm.clist([c_nm(k, n, bad_exc) for k, n in o.get("names", [])])
-    faults = cm.clist([cm.cpair(s, c_exc(e)) for s, e in o.get("faults", [])])
+    faults = cm.clist([cm.cpair(f[0], c_exc(f[1])) for f in o.get("faults", [])])
     return "(SCell (mkCell %s %s %s %s))" % (ACTS[o["act"]], names, faults, cm.cbool(o.get("del", False)))
 
 
@@ -143,10 +175,11 @@ def c_val(v):
 
 
 def c_env(e, variant):
-    return "(mkEnv %s %s %s %s %s %s %s %s %s %s %s %s %s %s %s)" % (
+    return "(mkEnv %s %s %s %s %s %s %s %s %s %s %s %s %s %s %s %s)" % (
         e["reset"], cm.cbool(e["ofind"]), e["ast"], cm.cbool(e["magics"]), cm.cbool(e["profiler"]), e["compl"],
         cm.cbool(e["jedi"]), e["pm"], cm.cbool(e["execfile"]), cm.cbool(e.get("ipdb", True)), cm.cbool(e["tb_debugger"]),
-        cm.cbool(e["rwd"]), cm.cN(e.get("level", 40)), cm.cbool(variant["f6"]), cm.cbool(variant["f14"]))
+        cm.cbool(e["rwd"]), cm.cN(e.get("level", 40)), cm.cbool(variant["f6"]), cm.cbool(variant["f14"]),
+        cm.cbool(e.get("init_subcmd", True)))
 
 
 def c_io(e, variant):
@@ -157,27 +190,59 @@ def c_io(e, variant):
 NXT = 1000
 
 
-def with_natural(o, ent):
-    """%run: what pyflyby's own (unarmed) read / parse of the script raised on this very run is an oracle
-    argument of the model - a fault at SParse; raised while constructing the PythonBlock it precedes an
-    armed SParse stub (which sits in ast_node), otherwise it follows it"""
-    nat = (ent.get("cell") or {}).get("natural_parse")
-    if o.get("op") != "cell" or not nat:
+def with_natural(o, ent, case):
+    """oracle arguments of the model taken from this very run:
+    * %run: what pyflyby's own (unarmed) read / parse of the script raised is a fault at SParse; raised while
+      constructing the PythonBlock it precedes an armed SParse stub (which sits in ast_node), otherwise it follows it;
+    * a stub on symbol_needs_import armed from its k-th call on: where the call that raised sat - inside
+      find_missing_imports (mid-visit of the user's AST: the model's SAnalysis), in auto_import_symbol (the
+      model's SNeedsImport), or nowhere (fewer than k calls);
+    * a sys.path entry whose finder cannot enumerate its modules: ModuleHandle.list() raises OSError in every
+      global-name completion pyflyby answers (SModuleList)."""
+    if o.get("op") != "cell":
         return o
+    c = ent.get("cell") or {}
     o = dict(o)
-    f = [["SParse", nat[0]]]
-    o["faults"] = (f + list(o.get("faults", []))) if nat[1] == "construct" else (list(o.get("faults", [])) + f)
+    faults = []
+    for f in o.get("faults", []):
+        if f[0] == "SNeedsImport":
+            where = c.get("fired_in", {}).get("SNeedsImport")
+            if where == "analysis":
+                faults.append(["SAnalysis", f[1]])
+            elif where is not None:
+                faults.append(["SNeedsImport", f[1]])
+        else:
+            faults.append([f[0], f[1]])
+    nat = c.get("natural_parse")
+    if nat:
+        faults = ([["SParse", nat[0]]] + faults) if nat[1] == "construct" else (faults + [["SParse", nat[0]]])
+    if case.get("bad_finder") and o.get("act") == "cglobal":
+        faults.append(["SModuleList", "OSError"])
+    o["faults"] = faults
     return o
 
 
-def model_expr(case, impl, variant):
+def base_snapshot(impl):
+    """the shell before pyflyby touched it: the first snapshot in which the shell exists, minus what pyflyby
+    has already installed by then (enable before app.initialize())"""
+    first = next((e["snap"] for e in impl["trace"] if e["snap"].get("has_shell", True)), impl["trace"][0]["snap"])
     s0 = impl["trace"][0]["snap"]
-    ops = [with_natural(o, ent) for o, ent in zip(case["ops"], impl["trace"][1:])]
+    slots = [v if v[0] == "P" else "U" for v in first["slots"][:14]] + list(s0["slots"][14:])
+    own_a = first.get("ast_own", [False] * len(first["ast"]))
+    own_c = first.get("cleanup_own", [False] * len(first["cleanup"]))
+    return {"slots": slots, "ast": [x for x, o in zip(first["ast"], own_a) if not o],
+            "cleanup": [x for x, o in zip(first["cleanup"], own_c) if not o], "line": [],
+            "has_shell": s0.get("has_shell", True)}
+
+
+def model_expr(case, impl, variant):
+    s0 = base_snapshot(impl)
+    ops = [with_natural(o, ent, case) for o, ent in zip(case["ops"], impl["trace"][1:])]
     slots = cm.clist([cm.cpair(j, c_val(v)) for j, v in zip(JPS, s0["slots"]) if v != "U"])
-    return "run_session %s %s %s %s %s %s %s %s" % (
+    return "run_session %s %s %s %s %s %s %s %s %s" % (
         c_env(impl["env"], variant), c_io(impl["env"], variant), slots,
         cm.clist([cm.cN(x) for x in s0["ast"]]), cm.clist([cm.cN(x) for x in s0["cleanup"]]),
-        cm.clist([cm.cN(x) for x in s0["line"]]), cm.cN(NXT),
+        cm.clist([cm.cN(x) for x in s0["line"]]), cm.cbool(s0["has_shell"]), cm.cN(NXT),
         cm.clist([c_sop(o, case.get("bad_exc", "ValueError")) for o in ops]))
 
 
@@ -208,6 +273,11 @@ def exc_name_of_model(x):
     return x
 
 
+def masked_slots(slots, shell, rn):
+    """the fourteen slots of the shell do not exist before the shell does (identities are renamed after masking)"""
+    return [canon_val(v, rn) for v in slots] if shell else ["-"] * 14 + [canon_val(v, rn) for v in slots[14:]]
+
+
 def canon_impl(impl, case=None):
     rn = Renamer()
     out = []
@@ -219,22 +289,26 @@ def canon_impl(impl, case=None):
         if c:
             names_bound |= {n for n in c.get("ns_added", []) if n in NAME_ID}
             names_bound -= set(c.get("ns_removed", []))
+        shell = s.get("has_shell", True)
         snap = {"st": s["st"], "errored": s["errored"],
                 "disablers": [[d[0], d[1], canon_val(d[2], rn), canon_val(d[3], rn)] if d[0] == "unadvise"
                               else [d[0], d[1], rn(d[2])] for d in s["disablers"]],
-                "slots": [canon_val(v, rn) for v in s["slots"]],
-                "ast": [rn(x) for x in s["ast"]], "cleanup": [rn(x) for x in s["cleanup"]], "line": [rn(x) for x in s["line"]],
+                "slots": masked_slots(s["slots"], shell, rn),
+                "ast": [rn(x) for x in s["ast"]] if shell else [], "cleanup": [rn(x) for x in s["cleanup"]] if shell else [],
+                "line": [rn(x) for x in s["line"]] if shell else [],
                 "ast_tr": None if s["ast_tr"] is None else rn(s["ast_tr"]),
                 "attempted": sorted([NAME_ID.get(k, k), v] for k, v in s["attempted"]),
                 "user_ns": sorted(NAME_ID[n] for n in names_bound),
                 "log_pre": s["log_pre"], "log_dirty": s["log_dirty"],
+                "has_shell": shell, "registered": sorted(NAME_ID.get(n, n) for n in s.get("registered", [])),
+                "attr": s.get("attr", False),
                 "loaded": s["loaded"], "escaped": ent.get("escaped")}
         co = None
         if c:
             esc = c.get("escaped")
             if esc is None and o is not None and c.get("error") is not None:
                 # run_cell reports an exception that left a hook as the cell's error
-                injected = {REAL_CLASS.get(e, e) for _, e in o.get("faults", [])} | ({case.get("bad_exc")} if case else set()) | {"StrFailure"}
+                injected = {REAL_CLASS.get(f[1], f[1]) for f in o.get("faults", [])} | ({case.get("bad_exc")} if case else set()) | {"StrFailure"}
                 if c["error"] in injected and c["error"] != "NameError":
                     esc = c["error"]
             co = {"path": c["pf_calls"] > 0, "escaped": esc}
@@ -251,15 +325,18 @@ def canon_model(mtrace, case):
     out = []
     for (sh, co), o in zip(mtrace, [None] + case["ops"]):
         s = sh["ai"]
+        shell = s["has_shell"]
         snap = {"st": s["st"], "errored": s["errored"],
                 "disablers": [[d[0], d[1], canon_val(d[2], rn), canon_val(d[3], rn)] if d[0] == "unadvise"
                               else [d[0], d[1], rn(d[2])] for d in s["disablers"]],
-                "slots": [canon_val(v, rn) for v in s["slots"]],
-                "ast": [rn(x) for x in s["ast"]], "cleanup": [rn(x) for x in s["cleanup"]], "line": [rn(x) for x in s["line"]],
+                "slots": masked_slots(s["slots"], shell, rn),
+                "ast": [rn(x) for x in s["ast"]] if shell else [], "cleanup": [rn(x) for x in s["cleanup"]] if shell else [],
+                "line": [rn(x) for x in s["line"]] if shell else [],
                 "ast_tr": None if s["ast_tr"] is None else rn(s["ast_tr"]),
                 "attempted": sorted([k, v] for k, v in s["attempted"]),
                 "user_ns": sorted(s["user_ns"]),
                 "log_pre": s["log_pre"], "log_dirty": s["log_dirty"],
+                "has_shell": shell, "registered": sorted(set(s["registered"])), "attr": sh["attr"],
                 "loaded": sh["loaded"], "escaped": exc_name_of_model(sh["escaped"])}
         c = None
         if co is not None:
@@ -290,19 +367,34 @@ def oracle(case, impl, ref):
     """list of (clause, detail)"""
     bad = []
     tr = impl["trace"]
-    s0 = tr[0]["snap"]
-    plain_ids = set(s0["ast"]) | set(s0["cleanup"])
+    base = base_snapshot(impl)          # what the shell looks like without pyflyby
+    plain_ids = set(base["ast"]) | set(base["cleanup"])
+    eff_base = None
+
+    def opname(k):
+        return "init" if k == 0 else case["ops"][k - 1].get("op")
+
     for k, ent in enumerate(tr):
         s = ent["snap"]
+        shell = s.get("has_shell", True)
         if s["st"] == "DISABLED":
-            for f in ("slots", "eff", "ast", "cleanup"):
-                if s[f] != s0[f]:
-                    bad.append(("disable_restores", "step %d (%s): %s is %r, was %r before pyflyby was enabled"
-                                % (k, "init" if k == 0 else case["ops"][k - 1].get("op"), f, s[f], s0[f])))
-                    break
+            if shell:
+                if eff_base is None:
+                    eff_base = s["eff"]
+                for f, want in (("slots", base["slots"]), ("eff", eff_base), ("ast", base["ast"]), ("cleanup", base["cleanup"])):
+                    if s[f] != want:
+                        bad.append(("disable_restores", "step %d (%s): %s is %r, was %r before pyflyby was enabled"
+                                    % (k, opname(k), f, s[f], want)))
+                        break
+            elif s["slots"][14:] != base["slots"][14:]:
+                bad.append(("disable_restores", "step %d (%s): app.init_shell / app.initialize_subcommand are %r after a disable "
+                            "before the shell exists, initially %r" % (k, opname(k), s["slots"][14:], base["slots"][14:])))
             if s["disablers"]:
                 bad.append(("disable_restores", "step %d: %d disablers left in state DISABLED" % (k, len(s["disablers"]))))
         elif s["st"] == "ENABLED":
+            if not shell:
+                bad.append(("state_machine", "step %d: ENABLED although no shell exists" % k))
+                continue
             own_ast = [x for x in s["ast"] if x not in plain_ids]
             own_cl = [x for x in s["cleanup"] if x not in plain_ids]
             if len(own_ast) != 1 or len(own_cl) != 1:
@@ -319,11 +411,19 @@ def oracle(case, impl, ref):
                         bad.append(("enable_once", "step %d: advice stacked on advice at %s" % (k, JPS[d[1]])))
             if any(v > 1 for v in per_jp.values()):
                 bad.append(("enable_once", "step %d: a joinpoint is advised more than once: %r" % (k, per_jp)))
+        elif s["st"] == "ENABLING" and not shell and s["slots"][14].startswith("A"):
+            pass      # enabled before the shell exists: waiting for app.init_shell(), which is advised
         else:
-            bad.append(("state_machine", "step %d: state %s visible between operations" % (k, s["st"])))
+            bad.append(("state_machine", "step %d (%s): state %s visible between operations (shell exists: %s)"
+                        % (k, opname(k), s["st"], shell)))
     # an enable that is entitled to succeed does (F14 is the counter-example on the unrepaired code)
     for k, (o, ent) in enumerate(zip(case["ops"], tr[1:]), 1):
         prev, s = tr[k - 1]["snap"], ent["snap"]
+        if not prev.get("has_shell", True):
+            if o["op"] == "Initialize" and prev["st"] == "ENABLING" and s["st"] != "ENABLED" and case.get("level") != "DEBUG":
+                bad.append(("enable_succeeds", "step %d: enabled before the shell existed, but state %s (errored=%s) once "
+                            "app.initialize() has run" % (k, s["st"], s["errored"])))
+            continue
         forced = o["op"] in ("LoadFn", "ReloadExt") or (o["op"] == "LoadExt" and not prev["loaded"])
         plain = o["op"] in ("Enable", "EnableAgain") and not prev["errored"]
         if (forced or plain) and s["st"] != "ENABLED" and case.get("level") != "DEBUG":
@@ -331,10 +431,25 @@ def oracle(case, impl, ref):
                         % (k, o["op"], s["st"], s["errored"], ent.get("escaped") or ent.get("escaped_msg") or "no exception")))
     last = tr[-1]["snap"]
     if case["ops"] and case["ops"][-1].get("op") == "Disable":
-        for f in ("slots", "eff", "ast", "cleanup", "disablers", "ast_tr"):
-            if last[f] != s0[f]:
-                bad.append(("no_residue", "after the final disable %s is %r, initially %r" % (f, last[f], s0[f])))
+        want = dict(base, disablers=[], ast_tr=None)
+        if not last.get("has_shell", True):
+            want.update(slots=["U"] * 14 + base["slots"][14:], ast=[], cleanup=[])
+        for f in ("slots", "ast", "cleanup", "disablers", "ast_tr"):
+            if last[f] != want[f]:
+                bad.append(("no_residue", "after the final disable %s is %r, initially %r" % (f, last[f], want[f])))
                 break
+    # names registered with add_import() stay known across every off/on cycle
+    reg_ok = False
+    for k, (o, ent) in enumerate(zip(case["ops"], tr[1:]), 1):
+        before = tr[k - 1]["snap"]
+        if o["op"] == "AddImport" and "escaped" not in ent:
+            reg_ok = True
+        if o["op"] == "cell" and o.get("text") == CELL_REG["text"] and reg_ok and before["st"] == "ENABLED" \
+           and not before["errored"]:
+            c = ent["cell"]
+            if c.get("error") is not None or "escaped" in c:
+                bad.append(("registered_kept", "step %d: a name registered with add_import() is no longer auto-imported while "
+                            "ENABLED: %r" % (k, {x: c.get(x) for x in ("error", "escaped")})))
     # behavioural clause
     if ref is not None and "__child_error__" not in ref:
         for k, (o, ent, rent) in enumerate(zip(case["ops"], tr[1:], ref["trace"][1:])):
@@ -348,13 +463,13 @@ def oracle(case, impl, ref):
                         bad.append(("enabled_autoimports", "step %d: cell reading a known name failed while ENABLED: %r"
                                     % (k + 1, {x: c.get(x) for x in ("error", "escaped", "stdout")})))
                 elif before["st"] == "DISABLED":
-                    for f in ("result", "error", "stdout", "ns_added", "escaped"):
+                    for f in ("result", "error", "stdout", "ns_added", "escaped", "globals_delta"):
                         if c.get(f) != rc.get(f):
                             bad.append(("disabled_is_plain", "step %d: %s is %r, plain IPython gives %r"
                                         % (k + 1, f, c.get(f), rc.get(f))))
                             break
             elif before["st"] == "DISABLED":
-                for f in ("result", "error", "stdout", "ns_added", "escaped", "matches"):
+                for f in ("result", "error", "stdout", "ns_added", "escaped", "matches", "globals_delta"):
                     if c.get(f) != rc.get(f):
                         bad.append(("disabled_is_plain", "step %d: %s is %r, plain IPython gives %r"
                                     % (k + 1, f, c.get(f), rc.get(f))))
@@ -399,6 +514,10 @@ def evaluate(ctx, cases, results):
         for clause, detail in oracle(c, impl, ref):
             ctx.violation(clause, c, detail)
         sts = [e["snap"]["st"] for e in impl["trace"]]
+        if c.get("preshell"):
+            ctx.bump("preshell")
+        if "ENABLING" in sts:
+            ctx.bump("enabling_observed")
         ctx.count(c, "ENABLED" in sts)
         ctx.bump("len=%d" % (len(c["ops"]) - 1))
         for o in c["ops"]:
@@ -432,14 +551,18 @@ ANCHORS = ["pyflyby._util:Aspect.__init__", "pyflyby._util:Aspect.advise", "pyfl
            "pyflyby._interactive:AutoImporter._safe_call", "pyflyby._interactive:AutoImporter._advise",
            "pyflyby._interactive:AutoImporter.reset_state_new_cell", "pyflyby._interactive:enable_auto_importer",
            "pyflyby._interactive:disable_auto_importer", "pyflyby._interactive:load_ipython_extension",
-           "pyflyby._interactive:unload_ipython_extension"]
+           "pyflyby._interactive:unload_ipython_extension", "pyflyby._interactive:AutoImporter._continue_enable",
+           "pyflyby._interactive:AutoImporter._from_app", "pyflyby._interactive:AutoImporter._construct",
+           "pyflyby._dynimp:add_import", "pyflyby._dynimp:_add_import"]
 
 
 def run(ctx):
     cm.check_anchors(ctx, ANCHORS)
     n = (150 if ctx.quick else 400) * ctx.scale
     ctx.coverage["rule"] = ("operation sequences of length 1-6 over {Enable, EnableAgain, Disable, LoadExt, UnloadExt, ReloadExt, "
-                            "LoadFn, UnloadFn, run-cell, complete} + a final Disable, one fresh real shell per sequence, "
+                            "LoadFn, UnloadFn, add_import, run-cell (known name / name registered with add_import), complete} + a final Disable, "
+                            "one fresh real shell per sequence, every 4th sequence starting BEFORE app.initialize() (enable / disable calls, then "
+                            "Initialize), every 7th an add_import followed by an off/on cycle, "
                             "10% under the jedi completer, 4% at PYFLYBY_LOG_LEVEL=DEBUG; thorough adds every sequence of "
                             "length <= 3 (<= 4 with 12 or more jobs) over the eight operations; non-trivial = the sequence reached ENABLED")
     ctx.assumptions += [
@@ -452,7 +575,7 @@ def run(ctx):
     cases = cm.load_corpus("C14") + gen_cases(ctx, n)
     if not ctx.quick:
         # every sequence of length <= 3 (584); of length <= 4 (4680, ~12 min) when there are cores for it
-        cases += gen_exhaustive(4 if cm.NCPU >= 12 else 3)
+        cases += gen_exhaustive(4 if cm.NCPU >= 12 else 3) + gen_preshell_exhaustive(3)
     results = cm.run_impl("c14", "impl_case", cases, timeout_case=300)
     evaluate(ctx, cases, results)
 
